@@ -816,6 +816,9 @@ class Signature:
         keywords_consumed: set[str] = set()
         bound_args: BoundArgs = {}
         star_args_consumed = False
+        # Whether *args can no longer fill a parameter, because an earlier
+        # positional-or-keyword parameter was passed by keyword.
+        star_args_exhausted = False
         star_kwargs_consumed = False
         # Whether some parameter (**kwargs, ..., a ParamSpec) takes the keyword
         # arguments that no named parameter matched.
@@ -897,14 +900,11 @@ class Signature:
                                 ctx,
                             )
                             return None
-                elif actual_args.star_args is not None:
-                    if param.name in actual_args.keywords:
-                        self.show_call_error(
-                            f"Parameter '{param.name}' may be filled from both"
-                            " *args and a keyword argument",
-                            ctx,
-                        )
-                        return None
+                elif (
+                    actual_args.star_args is not None
+                    and not star_args_exhausted
+                    and param.name not in actual_args.keywords
+                ):
                     star_args_consumed = True
                     if param.default is None:
                         position = ARGS
@@ -921,6 +921,9 @@ class Signature:
                         value = actual_args.star_args
                     bound_args[param.name] = position, Composite(value)
                 elif param.name in actual_args.keywords:
+                    # If *args is passed too, it has to end before this parameter,
+                    # so it cannot fill any later parameter either.
+                    star_args_exhausted = True
                     definitely_provided, composite = actual_args.keywords[param.name]
                     if (
                         not definitely_provided
